@@ -12,6 +12,7 @@ import (
 
 	"github.com/cnotch/ipchub/provider/route"
 	"github.com/cnotch/ipchub/utils"
+	"github.com/cnotch/ipchub/utils/verifhook"
 	"github.com/cnotch/scheduler"
 	"github.com/cnotch/xlog"
 )
@@ -45,6 +46,7 @@ func Regist(s *Stream) {
 	if s == oldSI { // 如果是同一个源
 		return
 	}
+	verifhook.Point("media.regist.loaded", s)
 
 	// 设置新流
 	streams.Store(s.path, s)
@@ -99,6 +101,7 @@ func GetOrCreate(path string) *Stream {
 		return s
 	}
 
+	verifhook.Point("media.getorcreate.missed", path)
 	// 检查路由
 	path = utils.CanonicalPath(path)
 	r := route.Match(path)
@@ -174,6 +177,7 @@ func runZeroConsumersCloseTask(s *Stream, closedStatus int32) {
 		d:           time.Minute * 5,
 		closedStats: closedStatus,
 	}
+	verifhook.Event("media.idle.task.posted", s, closedStatus)
 	scheduler.PostFunc(timing, timing.run,
 		fmt.Sprintf("%s: The close task when the stream exceeds a certain amount of time without a consumer.", s.path))
 }
